@@ -12,7 +12,7 @@ import glob, json, os, sys
 rnd = sys.argv[1]
 want = sys.argv[2:]
 props = [json.loads(l) for l in open("/verif/properties.jsonl")]
-na = set(json.load(open("/verif/MANIFEST.json")).get("not_applicable", {}) if isinstance(json.load(open("/verif/MANIFEST.json")).get("not_applicable"), dict) else [x["id"] if isinstance(x, dict) else x for x in json.load(open("/verif/MANIFEST.json")).get("not_applicable", [])])
+na = set(x.get("property_id", x.get("property", x.get("id"))) if isinstance(x, dict) else x for x in json.load(open("/verif/MANIFEST.json")).get("not_applicable", []))
 os.makedirs("/tmp/mut", exist_ok=True)
 for p in props:
     pid = p["id"]
